@@ -14,10 +14,17 @@ META = {
                  "feedbackmapper.go/handler.go/feedback.go by the translator, (b) a fold of the option table extracted "
                  "(go/ast) from opts.go/engine.go/mirror.go; differential run of the generated model vs the real code "
                  "(every witness replayed in a subprocess: exit status + stderr)",
-    "level": "Partial (non-kernel parts of C09): mappers total on every generated handler result and following the documented "
-             "classes; constructors New/NewMirror never panic and report every rejected option for EVERY option list; "
-             "Registry.Unmarshal total on every byte string. Kernel/state-machine panic freedom and liveness under slow "
-             "drivers are separate sub-checks / named residue.",
+    "level": "P/partial. Proved: the feedback mappers are total on every generated handler result and follow the documented classes; "
+             "constructors New/NewMirror never panic and report every rejected option for EVERY option list; Registry.Unmarshal is "
+             "total on every byte string; KERNEL: on the mirror-kernel model (Model/Mirror.v, tied to the real mirror by per-message "
+             "correspondence) no proposed header, prevote or precommit message - any height, round, key id, signature, commit proof - "
+             "makes the kernel panic in any state reached by any history of messages and replayed headers, provided no accepted header "
+             "announces a next validator set of total power 0 (C09_kernel_messages_never_panic_partial; without that proviso the "
+             "statement is refuted by a witness: ByzantineMajority(0)); a replayed header panics exactly when its commit proof is for a "
+             "round the mirror has left (known finding, witness replayed on the code on every run). Monitored, not proved: the real "
+             "mirror under generated histories with replays, a stalling / racing state machine and gossip reader (process death = "
+             "violation); entrance of a slow state machine into an orphaned round panics (known finding). State-machine panics are "
+             "C08's findings; deadlock / slow-driver liveness is named residue.",
     "note": "Trusted: Coq kernel, the translator and extractors (cross-checked by differential execution every run), "
             "the Go harness. Residue: deadlock / slow-driver liveness, typed-nil interface values passed as option values.",
     "design_ref": "DESIGN.md 4 (C09), design/C09.md",
@@ -570,6 +577,8 @@ def main(argv):
         c.broken = {"file": "translate", "log": tlog[-800:]}
     else:
         ctx.proved = c.prove("C09")
+        # kernel part: totality of the mirror-kernel model for peer messages (Proofs/MirrorTotal.v)
+        ctx.proved = c.prove("C09Kernel") and ctx.proved
     # 3. harness for the real code
     ctx.binary, blog = c.go_build("c09")
     if ctx.binary is None:
